@@ -168,15 +168,17 @@ def model_get_context(seq, context):
             if num == context:
                 return ("tag", i)
         elif cls == R.OPEN:
-            depth, j = 0, i + 1
+            # brackets balance when every closing tag carries the number of the opening tag it closes
+            stack, j = [num], i + 1
             while j < n:
-                c2 = seq[j][0]
+                c2, n2 = seq[j]
                 if c2 == R.OPEN:
-                    depth += 1
+                    stack.append(n2)
                 elif c2 == R.CLOSE:
-                    if depth == 0:
+                    if stack.pop() != n2:
+                        return ("invalid",)
+                    if not stack:
                         break
-                    depth -= 1
                 j += 1
             if j >= n:
                 return ("invalid",)
